@@ -128,6 +128,13 @@ def split_frames(data: bytes) -> list[bytes]:
     return out
 
 
+# socket error kinds of the scenario language: "soft" / "hard" are EAGAIN / ECONNRESET (read) or EPIPE (write); a suffix
+# picks another errno of the same class (the node's soft failures are EAGAIN, EWOULDBLOCK, ENOBUFS, ENOSR, EINTR;
+# everything else ends the connection)
+ERRNOS = {"softB": errno.ENOBUFS, "softS": errno.ENOSR, "softI": errno.EINTR, "softW": errno.EWOULDBLOCK,
+          "hardT": errno.ETIMEDOUT, "hardU": errno.EHOSTUNREACH, "hardN": errno.ENETDOWN, "hardR": errno.ECONNRESET,
+          "hardP": errno.EPIPE, "hardA": errno.ECONNABORTED, "hardF": errno.ECONNREFUSED, "hardO": errno.EIO}
+
 class RecApp(app_mod.Application):
     def __init__(self, sim, idx, *a, **k):
         super().__init__(*a, **k)
@@ -330,6 +337,24 @@ class Sim:
                     except Exception:
                         break
                 c._read_buffer_queue = rq = q
+            if self.eager and rq.items and c._read_thread.stop_requested and not c._read_thread.crashed \
+                    and c not in self._readers_running:
+                # alternative schedule: the reader was already waiting in get() when its connection was closed -- it still
+                # handles what had been handed over before (the stop flag is only looked at before the next get())
+                th = c._read_thread
+                th.stop_requested = False
+                self._readers_running.append(c)
+                try:
+                    c.work_read_queue(th)
+                except Exception as e:  # noqa
+                    self.obs.append(f"CRASH reader {self.cname(c)} {type(e).__name__}")
+                    self.env.crashes.append(("reader", e))
+                    th.crashed = True
+                finally:
+                    self._readers_running.remove(c)
+                    th.stop_requested = True
+                    rq.items.clear()
+                progressed = True
             if rq.items and not c._read_thread.stop_requested and not c._read_thread.crashed \
                     and c not in self._readers_running:
                 progressed = True
@@ -525,17 +550,17 @@ class Sim:
         elif op == "rerr":
             s = self.sock(int(t[1]))
             if s is not None and not s.closed:
-                s.inbox.append(OSError(errno.EAGAIN if t[2] == "soft" else errno.ECONNRESET, "x"))
+                s.inbox.append(OSError(ERRNOS.get(t[2], errno.EAGAIN if t[2].startswith("soft") else errno.ECONNRESET), "x"))
                 self.env.want_read.add(s)
             self.settle()
         elif op == "wr":
             s = self.sock(int(t[1]))
             if s is not None:
                 for x in t[2].split(","):
-                    if x == "soft":
-                        s.send_script.append(OSError(errno.EAGAIN, "again"))
-                    elif x == "hard":
-                        s.send_script.append(OSError(errno.EPIPE, "pipe"))
+                    if x.startswith("soft"):
+                        s.send_script.append(OSError(ERRNOS.get(x, errno.EAGAIN), "again"))
+                    elif x.startswith("hard"):
+                        s.send_script.append(OSError(ERRNOS.get(x, errno.EPIPE), "pipe"))
                     else:
                         s.send_script.append(int(x))
         elif op == "block":
@@ -624,7 +649,11 @@ class Sim:
             orig_join = th.join
 
             def join(timeout=None):
-                # the I/O thread notices the stop flag on its next iteration
+                # the I/O thread notices the stop flag when its select() returns: at worst a whole wake-up interval from
+                # now (the schedule in which it had just gone to sleep); a join that gives up earlier returns without it
+                if timeout is not None and timeout < n.wakeup_interval:
+                    self.obs.append(f"JOINGAVEUP timeout={timeout} wakeup={n.wakeup_interval}")
+                    return
                 self.io_iteration()
             th.join = join
             try:
@@ -703,6 +732,8 @@ class Sim:
             for k, v in vars(obj).items():
                 if isinstance(v, (dict, list, set, collections.deque)) and k not in ("peers", "applications", "statistics_history"):
                     out[f"{owner}.{k}"] = size(v)
+                elif hasattr(v, "qsize") and callable(v.qsize):
+                    out[f"{owner}.{k}"] = v.qsize()           # queues (thread slots, message queues)
         return out
 
     def close(self):
